@@ -27,7 +27,9 @@ NUM_FIELDS = [("12", 12, True), ("-3", -3, True), ("2.5", 2.5, True), (" 7 ", 7,
               ("abc", None, True), ("12abc", None, True), ("--1", None, True), ("1,5x", None, True), ("&HG", None, True), ("&8", None, True),
               ("1 2", None, True), ("$5", None, True), ("\"5\"", None, True), ("1E", None, True),
               ("inf", None, False), ("nan", None, False), ("5%", None, False), ("5#", None, False), ("&H7FFF", 32767, True), ("&H8000", None, False),
-              ("\t9\t", 9, True), ("1e400", None, False), ("0x10", None, True)]
+              ("\t9\t", 9, True), ("1e400", None, False), ("0x10", None, True)] + \
+             [(t, int(t[2:], 16), True) for t in ("&H1D", "&hd", "&H0DD0", "&H7ADD", "&HABC", "&hE0F", "&H1e", "&H1E2", "&H1D2", "&HdEaD"[:5], "&H7fff", "&HD", "&HE", "&H0")] + \
+             [(t, int(t[1:], 8), True) for t in ("&777", "&0", "&77777", "&12345")] + [("&1D1", None, True), ("&H1G", None, True), ("&19", None, True)]
 STR_FIELDS = ["abc", " padded ", "\"quoted\"", "\"a,b\"", "\"un", "un\"", "\"\"", "\"", "", "a\"b\"c", "é日", "\" lead", "x" * 255, "y" * 256,
               "\"" + "z" * 255 + "\"", "\"a\"\"b\"", "tab\there"]
 
